@@ -13,8 +13,8 @@ RULE = ("the parameter sets of C14 x seeded random streams recorded at the numpy
         "voter of every stream. No frequency test is used as a verdict. Non-trivial = at least one recorded primitive call "
         "with >= 2 outcomes of positive probability; distinct by canonical JSON")
 TRUSTED = ["laws of numpy.random.choice (p, replace), numpy.random.uniform, random.random/choices/shuffle; Dirichlet mean for Impartial Culture"]
-ORACLE_ONLY = ["ImpartialCulture / ImpartialAnonymousCulture (Dirichlet-drawn table): only 'uniform up to 1e-6' (IC) and 'a probability vector over all complete rankings' (IAC) are checked",
-               "CambridgeSampler (pickled historical frequencies): bloc-first / opposing-first split only"]
+ORACLE_ONLY = ["ImpartialCulture / ImpartialAnonymousCulture: the Dirichlet draw is a trusted primitive; checked: its parameter vector (alpha = 1e20 / 1 over all n! rankings), 'uniform up to 1e-6' (IC), and that the recorded draw is the table handed to the sampler (model)",
+               "CambridgeSampler with the packaged data: the table reaches the model compressed"]
 model_post = C14.model_post
 
 
@@ -175,6 +175,14 @@ def run_case(case):
         e = choices[0]
         if abs(sum(e["p"]) - 1) > 1e-9 or any(p < 0 for p in e["p"]):
             oracle.append("IAC table is not a probability vector")
+    if g in ("ImpartialCulture", "ImpartialAnonymousCulture") and choices:
+        ds = [x for x in run["log"] if x["kind"] == "dirichlet"]
+        nfact = len(list(itertools.permutations(case["cands"])))
+        want_alpha = 1e20 if g == "ImpartialCulture" else 1.0
+        if len(ds) != 1 or ds[0]["alpha"] != [want_alpha] * nfact:
+            oracle.append(f"the ballot-simplex point is not one Dirichlet({want_alpha:g}, ..., {want_alpha:g}) draw over all {nfact} complete rankings")
+        elif [float(x) for x in ds[0]["result"]] != [float(x) for x in choices[0]["p"]]:
+            oracle.append("the probability table handed to the sampler is not the Dirichlet draw")
     elif g == "AlternatingCrossover":
         ap = run["apportion"][0]
         pos = 0
